@@ -21,12 +21,13 @@ CONSTANTS NMsgs,      \* number of messages the sender sends
           MaxChunk,   \* largest fragment (in cells) one Arrive may deliver
           Stricts,    \* subset of BOOLEAN: strict-kex settings explored (seqno reset at NEWKEYS)
           Zlibs,      \* subset of BOOLEAN: compression settings explored
-          CheckMac,   \* FALSE = mutation: receiver skips MAC / tag verification
-          MacHasSeq,  \* FALSE = mutation: sequence number left out of the MAC input
-          FreshZOut,  \* FALSE = mutation: _activate_outbound keeps the old deflater
-          FreshZIn    \* FALSE = mutation: _activate_inbound keeps the old inflater
+          Mutations   \* seeded defects a behaviour may start with (cfg.mut), to show the properties bite:
+                      \*   "nomac"  receiver skips MAC / tag verification
+                      \*   "noseq"  sequence number left out of the MAC input
+                      \*   "zout"   _activate_outbound keeps the old deflater
+                      \*   "zin"    _activate_inbound keeps the old inflater
 
-VARIABLES cfg,        \* [strict, zlib]: fixed per behaviour
+VARIABLES cfg,        \* [strict, zlib, mut]: fixed per behaviour; mut = "none" is the code as it is
           sent,       \* Seq of message ids handed to send_message, in order
           wire,       \* Seq of packet records written to the socket and not yet consumed
           arrived,    \* how many cells of `wire` (from its head) reached the receiver's socket
@@ -55,7 +56,12 @@ Pkt(mid, kind) == [mid |-> mid, kind |-> kind, seq |-> sseq, epoch |-> sepoch,
                    lenok  |-> TRUE,     \* the length field (hence the framing) is as sent
                    whole  |-> TRUE]     \* FALSE: the stream ends inside this packet
 
-Init == /\ cfg \in [strict : Stricts, zlib : Zlibs]
+CheckMac  == cfg.mut # "nomac"
+MacHasSeq == cfg.mut # "noseq"
+FreshZOut == cfg.mut # "zout"
+FreshZIn  == cfg.mut # "zin"
+
+Init == /\ cfg \in [strict : Stricts, zlib : Zlibs, mut : {"none"} \cup Mutations]
         /\ sent = <<>> /\ wire = <<>> /\ arrived = 0
         /\ sseq = 0 /\ sepoch = 0 /\ szid = 0 /\ szpos = 0
         /\ rseq = 0 /\ repoch = 0 /\ rzid = 0 /\ rzpos = 0
@@ -155,19 +161,28 @@ Attacker == \E i \in 1..(NMsgs + MaxSwitch + 1) :
 Next == SendMessage \/ ActivateOutbound \/ ReadMessage \/ (\E k \in 1..MaxChunk : Arrive(k)) \/ Attacker
 Spec == Init /\ [][Next]_vars
 
-(* ---- properties ---- *)
+(* ---- properties (of the code as it is: cfg.mut = "none") ---- *)
 TypeOK == /\ arrived \in 0..(Cells * Len(wire))
           /\ rstate \in {"ok", "failed", "waiting"}
           /\ sseq \in 0..(SeqMod - 1) /\ rseq \in 0..(SeqMod - 1)
-PrefixOnly   == IsPrefix(delivered, sent)                                   \* C02 and C01: order, no dup, no alien
-NoAlien      == \A i \in 1..Len(delivered) : delivered[i] # Alien
-AllDelivered == (ntamper = 0 /\ wire = <<>> /\ rstate = "ok") => delivered = sent      \* C01: no loss
-NeverFailsHonest == ntamper = 0 => rstate = "ok"                            \* C01
+PrefixOnly0   == IsPrefix(delivered, sent)                                   \* C02 and C01: order, no dup, no alien
+NoAlien0      == \A i \in 1..Len(delivered) : delivered[i] # Alien
+AllDelivered0 == (ntamper = 0 /\ wire = <<>> /\ rstate = "ok") => delivered = sent      \* C01: no loss
+NeverFailsHonest0 == ntamper = 0 => rstate = "ok"                            \* C01
 \* C01, the reason it works: on an honest network the receiver is always positioned exactly where the
 \* packet at the head of the wire was sealed (keys, sequence number, compression stream)
-SyncHonest   == (ntamper = 0 /\ wire # <<>>) =>
+SyncHonest0   == (ntamper = 0 /\ wire # <<>>) =>
                    LET p == Head(wire) IN /\ p.seq = rseq /\ p.epoch = repoch
                                           /\ (cfg.zlib => p.zid = rzid /\ p.zpos = rzpos)
+Asis == cfg.mut = "none"
+PrefixOnly       == Asis => PrefixOnly0
+NoAlien          == Asis => NoAlien0
+AllDelivered     == Asis => AllDelivered0
+NeverFailsHonest == Asis => NeverFailsHonest0
+SyncHonest       == Asis => SyncHonest0
 \* C02: once the receiver has hit a bad packet it never hands up anything again
 StopsAtFirstBad == [][rstate # "ok" => delivered' = delivered /\ rstate' = rstate]_vars
+\* every seeded defect is noticed by one of the properties (printed per defect and property, see the checks)
+Caught == (~Asis /\ ~(PrefixOnly0 /\ NoAlien0 /\ AllDelivered0 /\ NeverFailsHonest0 /\ SyncHonest0)) =>
+             PrintT(<<"CAUGHT", cfg.mut, ~PrefixOnly0, ~NoAlien0, ~AllDelivered0, ~NeverFailsHonest0, ~SyncHonest0>>)
 =============================================================================
